@@ -359,6 +359,18 @@ def cases_for(rng, n, ctx):
                 what = 'einsum ' + sub
             res = {'k': 'exc', 't': type(r).__name__} if isinstance(r, Exception) else {'k': 'ok', 'm': pm(r, pool)}
             cases.append({'id': cid + '-f%d-N%d' % (nf, N), 'ev': 'jack', 'what': what, 'N': N, 'ops': [pm(x, pool) for x in mats], 'res': res})
+            # history: the caller goes on working with the SAME array objects - the content of one of them is replaced in place (a matrix that is
+            # updated in a loop) - and makes the same request again: the product is the product of what the arrays hold NOW
+            if (i // len(ops)) % 2 == 0 and not isinstance(r, Exception):
+                tgt = mats[(i // len(ops) // 2) % nf]
+                newc = obs_matrix(rng, pool, values_matrix(rng, m), common_lists=True)
+                for a_ in range(tgt.shape[0]):
+                    for b_ in range(tgt.shape[1]):
+                        tgt[a_, b_] = newc[a_, b_]
+                r2 = _call(lambda: pe.linalg.jack_matmul(*mats)) if op == 'jack' else _call(lambda: pe.linalg.einsum(sub, *mats))
+                res2 = {'k': 'exc', 't': type(r2).__name__} if isinstance(r2, Exception) else {'k': 'ok', 'm': pm(r2, pool)}
+                cases.append({'id': cid + '-f%d-N%d-updated' % (nf, N), 'ev': 'jack', 'what': what + ' after an operand array was updated in place', 'N': N,
+                              'ops': [pm(x, pool) for x in mats], 'res': res2})
         ctx.nontrivial.add((op, m, tuple(sorted(pool)), i))
         if len(ctx.samples) < 5:
             ctx.sample({'id': cid, 'operation': op, 'dimension': m, 'chains': {k: str(v)[:40] for k, v in pool.items()}})
